@@ -426,8 +426,9 @@ class MinMaxAggregator:
         global_variables = global_vars_inside_body(list(rule.body))
         result_variables: set[AST] = set()
         for guard in (agg.atom.left_guard, agg.atom.right_guard):
-            if guard is not None:
-                result_variables.update(collect_ast(guard, "Variable"))
+            # only an assignment V = #agg makes V the value of the aggregate, a bound like 2*X < #agg just uses X
+            if guard is not None and guard.comparison == ComparisonOperator.Equal and guard.term.ast_type == ASTType.Variable:
+                result_variables.add(guard.term)
         for blit in rule.body:
             if blit == agg:
                 continue
